@@ -897,7 +897,7 @@ class MPO(MPSGeometry):
             msg = f'Number of sites must be an integer multiple of unit_cell_width={unit_cell_width}.'
             raise ValueError(msg)
         L = self.L
-        sites = [self.sites[i % L] for i in range(first, last + 1)]
+        sites = [self.get_site(i) for i in range(first, last + 1)]  # (charges shifted by whole unit cells)
         W = [self.get_W(i) for i in range(first, last + 1)]
         IdL = [self.IdL[i % L] for i in range(first, last + 1)]
         IdL.append(self.IdL[last % L + 1])
